@@ -49,15 +49,16 @@ type c11event struct {
 }
 
 type c11worker struct {
-	g       int
-	events  []c11event
-	errs    []string
-	errKey  []string
-	pins    []dyn.Buf
-	cycles  int
-	appends int
-	gets    int
-	reuse   int
+	g           int
+	events      []c11event
+	errs        []string
+	errKey      []string
+	pins        []dyn.Buf
+	cycles      int
+	appends     int
+	partialPuts int
+	gets        int
+	reuse       int
 }
 
 type c11cfg struct {
@@ -223,6 +224,7 @@ func c11Run(c *core.Ctx, cf c11cfg, caseID string, stream uint64) {
 		}
 		c.Obs("cycles", int64(w.cycles))
 		c.Obs("appends_of_one_held_buffer_to_another", int64(w.appends))
+		c.Obs("buffers_put_back_ending_in_a_partly_filled_frame", int64(w.partialPuts))
 		c.Obs("gets", int64(w.gets))
 	}
 	c.Eval(int64(len(all)))
@@ -457,8 +459,13 @@ func c11Worker(w *c11worker, pool dyn.Pool, t *dyn.TypeOps, cf c11cfg, r *core.R
 				}
 			}
 		}
-		for _, b := range held {
+		for i, b := range held {
 			pb := b
+			if al.Channels >= 2 && b.Len() < b.Cap() && r.Chance(1, 3) {
+				// the buffer goes back ending in a partly filled frame
+				b.AppendSample(stamps[i])
+				w.partialPuts++
+			}
 			if cf.SliceOnPut && r.Bool() {
 				pb = b.Slice(0, r.Range(0, al.Capacity))
 				w.pins = append(w.pins, pb)
